@@ -602,6 +602,116 @@ theorem observed_height_has_quorum (b : State) (powers : List Nat) (total : Nat)
     rw [hpw, htot] at this
     omega
 
+/-- **a vote releases something only by completing a quorum, at the voter's height, by the release rules** (every
+state of the voted system, every vote): if a batch leaves the store at a vote, that vote completed a quorum — one
+observation `⟨n, h, ev, voters⟩` was logged, with the height and the event of this very claim — and the batch's timeout is
+below that height (or the event executes / supersedes it); if an outgoing bridge call leaves, its timeout has been
+reached by that height.  Nothing leaves at a vote that does not complete a quorum, or whose handler panics. -/
+theorem vote_releases_only_with_quorum (s : VState) (o n h : Nat) (ev : Ev) :
+    let s' := (vote s o n h ev).1
+    (∀ b ∈ s.base.batches, b ∉ s'.base.batches →
+      (∃ voters, s'.obsLog = s.obsLog ++ [⟨n, h, ev, voters⟩]) ∧
+      (b.timeout < h ∨ ∃ t k, ev = .batch t k ∧ b.token = t ∧ b.nonce ≤ k)) ∧
+    (∀ c ∈ s.base.calls, c ∉ s'.base.calls →
+      (∃ voters, s'.obsLog = s.obsLog ++ [⟨n, h, ev, voters⟩]) ∧ c.timeout ≤ h) := by
+  have hv : FxVerif.Gen.C06.observedHeightFromVoter = true := by decide
+  have hh : hObsOf h = h := by simp [hObsOf, hv]
+  intro s'
+  have key0 : (voteCore FxVerif.Gen.C06.claimHashFields s o n h ev).1.base = s.base ∨
+      ((voteCore FxVerif.Gen.C06.claimHashFields s o n h ev).1.base = (step s.base (.observe h ev)).1 ∧
+        ∃ voters, (voteCore FxVerif.Gen.C06.claimHashFields s o n h ev).1.obsLog = s.obsLog ++ [⟨n, h, ev, voters⟩]) := by
+    unfold voteCore
+    split
+    · exact Or.inl rfl
+    split
+    · exact Or.inl rfl
+    simp only
+    split
+    · unfold observeBy
+      simp only [hh]
+      split
+      · rename_i hp
+        left
+        rcases observe_applies_next_nonce s.base h ev with ⟨h1, _⟩ | ⟨_, h2⟩
+        · have hp' : (doObserve s.base h ev).2 = .panic := hp
+          rw [h1] at hp'; cases hp'
+        · exact h2
+      · exact Or.inr ⟨rfl, _, rfl⟩
+    · exact Or.inl rfl
+  have key : s'.base = s.base ∨
+      (s'.base = (step s.base (.observe h ev)).1 ∧ ∃ voters, s'.obsLog = s.obsLog ++ [⟨n, h, ev, voters⟩]) := key0
+  have rel := released_only_by_observation s.base (.observe h ev)
+  refine ⟨?_, ?_⟩
+  · intro b hb hnb
+    rcases key with hk | ⟨hk, hlog⟩
+    · rw [hk] at hnb; exact absurd hb hnb
+    · rw [hk] at hnb
+      obtain ⟨h', ev', hop, hrule⟩ := rel.1 b hb hnb
+      cases hop
+      exact ⟨hlog, hrule⟩
+  · intro c hc hnc
+    rcases key with hk | ⟨hk, hlog⟩
+    · rw [hk] at hnc; exact absurd hc hnc
+    · rw [hk] at hnc
+      rcases rel.2 c hc hnc with ⟨h', ev', hop, hrule⟩ | ⟨k, ok, hop, _⟩
+      · cases hop
+        exact ⟨hlog, hrule⟩
+      · cases hop
+
+/-- **release only after the timeout height was observed by a quorum** — over whole voted histories: from any base state,
+for any oracle set, powers and recorded total, after any list of user operations and votes, if the next vote makes a batch
+(an outgoing bridge call) leave fxcore's store, then oracles holding at least the required power have EACH submitted a
+claim for this event nonce reporting exactly the height `h` that the release rule was evaluated with (`timeout < h`, resp.
+`timeout ≤ h`; or the event executes / supersedes the batch).  One oracle (or any set below the quorum) reporting a
+height beyond a timeout releases nothing. -/
+theorem release_only_after_quorum_observed_height (b0 : State) (powers : List Nat) (total : Nat) (ops : List VOp)
+    (o n h : Nat) (ev : Ev) :
+    let s := vrun (vinit b0 powers total) ops
+    let s' := (vote s o n h ev).1
+    (∀ b ∈ s.base.batches, b ∉ s'.base.batches →
+      (b.timeout < h ∨ ∃ t k, ev = .batch t k ∧ b.token = t ∧ b.nonce ≤ k) ∧
+      ∃ voters, (∀ o' ∈ voters, (⟨o', n, h, ev⟩ : Vote) ∈ s'.voteLog) ∧
+        required total ≤ sumPower (fun o => powers.getD o 0) voters) ∧
+    (∀ c ∈ s.base.calls, c ∉ s'.base.calls →
+      c.timeout ≤ h ∧
+      ∃ voters, (∀ o' ∈ voters, (⟨o', n, h, ev⟩ : Vote) ∈ s'.voteLog) ∧
+        required total ≤ sumPower (fun o => powers.getD o 0) voters) := by
+  intro s s'
+  have hs' : s' = vrun (vinit b0 powers total) (ops ++ [.vote o n h ev]) := by
+    show _ = vrunWith _ _ _
+    unfold vrunWith
+    rw [List.foldl_append]
+    rfl
+  have hq := observed_height_has_quorum b0 powers total (ops ++ [.vote o n h ev])
+  simp only at hq
+  rw [← hs'] at hq
+  have step := vote_releases_only_with_quorum s o n h ev
+  have back : (∃ voters, s'.obsLog = s.obsLog ++ [⟨n, h, ev, voters⟩]) →
+      ∃ voters, (∀ o' ∈ voters, (⟨o', n, h, ev⟩ : Vote) ∈ s'.voteLog) ∧
+        required total ≤ sumPower (fun o => powers.getD o 0) voters := by
+    rintro ⟨voters, hl⟩
+    have hm : (⟨n, h, ev, voters⟩ : Obs) ∈ s'.obsLog := by rw [hl]; simp
+    exact ⟨voters, hq _ hm⟩
+  refine ⟨?_, ?_⟩
+  · intro b hb hnb
+    obtain ⟨hl, hr⟩ := step.1 b hb hnb
+    exact ⟨hr, back hl⟩
+  · intro c hc hnc
+    obtain ⟨hl, hr⟩ := step.2 c hc hnc
+    exact ⟨hr, back hl⟩
+
+/-- non-vacuity of the two: a batch with timeout 3880 is in flight; oracle 1 (300 of 1000) alone reporting height 9999
+releases nothing; the other two reporting 3881 do -/
+example : ∃ ops : List VOp,
+    let s := vrun (vinit (init 1 [((0, 0), 100)] {}) [400, 300, 300] 1000) ops
+    s.base.batches.map (·.timeout) = [3880] ∧
+    (vote s 1 2 9999 .other).1.base.batches.length = 1 ∧
+    (vote (vote s 0 2 3881 .other).1 2 2 3881 .other).1.base.batches.length = 0 := by
+  refine ⟨[.vote 0 1 1000 .other, .vote 1 1 1000 .other, .vote 2 1 1000 .other,
+           .base (.send 0 "0x0000000000000000000000000000000000000001" 0 5 2),
+           .base (.reqBatch 0 1 0 "0x0000000000000000000000000000000000000002")], ?_⟩
+  decide
+
 /-- non-vacuity: three oracles (400 / 300 / 300 of 1000), one of them reports a far higher height; the event is observed
 with the height the other two reported, once the second of them has voted -/
 example : (vrun (vinit (init 1 [((0, 0), 100)] {}) [400, 300, 300] 1000)
